@@ -35,6 +35,8 @@ def serialise(recs, cfg=None):
                 payload += struct.pack('>f', float(fld['v']))
             elif fld['t'] == 'c':
                 payload += fld['v'].encode('latin1')[:1].ljust(1) + b'   '
+            elif fld['t'] == 's':       # four raw characters
+                payload += fld['v'].encode('latin1')[:4].ljust(4)
             else:
                 raise ValueError(fld)
         out.append(struct.pack('>i', len(payload)) + payload +
@@ -47,8 +49,10 @@ def word(w):
     f = struct.unpack('>f', w)[0]
     fok = (f == f) and abs(f) < 2e9 and f == int(f)
     cok = w[1:] == b'   ' and 32 <= w[0] < 127
+    sok = all(32 <= b < 127 for b in w)
     return {'i': i, 'f': int(f) if fok else 0, 'fok': bool(fok),
-            'c': chr(w[0]) if cok else '', 'cok': bool(cok)}
+            'c': chr(w[0]) if cok else '', 'cok': bool(cok),
+            's': w.decode('latin1') if sok else ''}
 
 
 def walk(data, maxrec=100000):
@@ -124,6 +128,14 @@ def readers(fmt):
         from PseudoNetCDF.camxfiles.uamiv.Read import uamiv as rd
         return {'memmap': lambda p, c, **kw: mm(p, **kw),
                 'read': lambda p, c, **kw: rd(p, **kw)}
+    if fmt == 'cloud_rain':
+        from PseudoNetCDF.camxfiles.cloud_rain.Memmap import cloud_rain as cr
+        return {'memmap': lambda p, c, **kw: cr(p, rows=c['ny'],
+                                                cols=c['nx'])}
+    if fmt == 'lateral_boundary':
+        from PseudoNetCDF.camxfiles.lateral_boundary.Memmap import \
+            lateral_boundary as lb
+        return {'memmap': lambda p, c, **kw: lb(p, **kw)}
     base, _ = MET[fmt]
     mm = getattr(importlib.import_module(base + '.Memmap'), fmt)
     rd = getattr(importlib.import_module(base + '.Read'), fmt)
@@ -134,6 +146,12 @@ def readers(fmt):
 def spcnames(cfg):
     if cfg['fmt'] in MET:
         return list(MET[cfg['fmt']][1])
+    if cfg['fmt'] == 'cloud_rain':
+        return ['CLOUD', 'RAIN', 'SNOW', 'GRAUPEL', 'COD'] if cfg['nv'] == 5 \
+            else ['CLOUD', 'PRECIP', 'COD']
+    if cfg['fmt'] == 'lateral_boundary':
+        return ['%s_%s' % (e, ''.join(x).strip()) for x in cfg['spc']
+                for e in ('WEST', 'EAST', 'SOUTH', 'NORTH')]
     return [''.join(x).strip() for x in cfg['spc']]
 
 
@@ -174,6 +192,8 @@ def build_met_file(cfg):
     f.TSTEP = 10000
     if cfg['fmt'] == 'wind':
         f.LSTAGGER = np.array(cfg['lstag'], dtype='>i')
+    if cfg['fmt'] == 'cloud_rain':
+        f.FILEDESC = 'CAMx CLD'
     return f
 
 
@@ -182,7 +202,7 @@ def build_file(cfg):
     from the configuration alone (dates by plain calendar arithmetic)."""
     import datetime as dtm
     import PseudoNetCDF as pnc
-    if cfg['fmt'] in MET:
+    if cfg['fmt'] in MET or cfg['fmt'] == 'cloud_rain':
         return build_met_file(cfg)
     names = spcnames(cfg)
     nt, nz, ny, nx = cfg['nt'], cfg['nz'], cfg['ny'], cfg['nx']
@@ -207,6 +227,19 @@ def build_file(cfg):
             ef[t, :, 0] = int(e.strftime('%Y%j'))
             ef[t, :, 1] = e.hour * 10000
     for s, name in enumerate(names):
+        if cfg['fmt'] == 'lateral_boundary':
+            # variable q is edge q % 4 of species q // 4; (step, cell, layer)
+            e = s % 4
+            nc = ny if e < 2 else nx
+            v = f.createVariable(name, 'f', ('TSTEP', 'ROW' if e < 2
+                                             else 'COL', 'LAY'))
+            for t in range(nt):
+                for cell in range(nc):
+                    for k in range(nz):
+                        v[t, cell, k] = ((((s // 4 + 1) * 5 + t + 1) * 5 +
+                                          k + 1) * 5 + cell + 1) * 5 + e + 1
+            v.units = 'ppm'
+            continue
         v = f.createVariable(name, 'f', ('TSTEP', 'LAY', 'ROW', 'COL'))
         for t in range(nt):
             for k in range(nz):
@@ -227,6 +260,7 @@ def build_file(cfg):
     f.CPROJ, f.ISTAG = cfg['iproj'], cfg['istag']
     f.TLAT1, f.TLAT2 = float(cfg['tlat1']), float(cfg['tlat2'])
     f.TSTEP = 10000
+    f.SDATE, f.STIME = int(tf[0, 0, 0]), int(tf[0, 0, 1])
     f.NVARS = len(names)
     setattr(f, 'VAR-LIST', ''.join(n.ljust(16) for n in names))
     return f
